@@ -77,6 +77,10 @@ static PDU* extra(int id, vh::Rng& rng, Entry& e) {
     case 130: { ICMP ic(ICMP::DEST_UNREACHABLE); ic.use_length_field(true); ic.extensions().add_extension(some_ext(rng)); Bytes q = quoted4(rng, rng.range(90, 140)); return (eth0() / ip0() / ic / RawPDU(q.begin(), q.end())).clone(); }
     case 131: { ICMPv6 ic(ICMPv6::TIME_EXCEEDED); ic.use_length_field(true); Bytes q = quoted6(rng, rng.range(1, 40)); return (eth0() / ip60() / ic / RawPDU(q.begin(), q.end())).clone(); }
     case 132: { ICMPv6 ic(ICMPv6::TIME_EXCEEDED); ic.use_length_field(true); ic.extensions().add_extension(some_ext(rng)); Bytes q = quoted6(rng, rng.range(60, 110)); return (eth0() / ip60() / ic / RawPDU(q.begin(), q.end())).clone(); }
+    // PPPoE discovery packets that belong to an established session (PADS, PADT carry a non-zero session id)
+    case 133: { PPPoE p; p.code(0x65); p.session_id((uint16_t)(1 + rng.below(65535))); p.service_name("svc"); return (eth0() / p).clone(); }
+    case 134: { PPPoE p; p.code(0xa7); p.session_id((uint16_t)(1 + rng.below(65535))); p.generic_error("bye"); return (eth0() / p).clone(); }
+    case 135: { PPPoE p; p.code(0xa7); p.session_id((uint16_t)(1 + rng.below(65535))); p.host_uniq(std::vector<uint8_t>(3, 0x5a)); return (eth0() / Dot1Q(12) / p).clone(); }
     case 128: { IP ip = ip0(); ip.add_option(IP::option(IP::option_identifier(IP::NOOP, IP::CONTROL, 0))); ICMP ic(ICMP::TIME_EXCEEDED); ic.extensions().add_extension(some_ext(rng)); ic.use_length_field(true); Bytes q = quoted4(rng, 4 * rng.range(20, 40));
                 return (eth0() / ip / ic / RawPDU(q.begin(), q.end())).clone(); }
     }
